@@ -22,6 +22,18 @@ type TimeCase struct {
 	T int64 `json:"t_ns"`      // instant, ns since 1970
 	D int64 `json:"delay_ns"`  // network delay
 	O int64 `json:"offset_ns"` // capture clock offset
+	// Zone/RecvZone: the time.Time values passed in carry a fixed-offset Location this many seconds east of
+	// UTC (0 = what time.Unix returns); the instant is the same, so every result must be the same
+	Zone     int `json:"zone_s,omitempty"`
+	RecvZone int `json:"recv_zone_s,omitempty"`
+}
+
+func inZone(t time.Time, z int) time.Time {
+	if z == 0 {
+		return t
+	}
+
+	return t.In(time.FixedZone("verif", z))
 }
 
 var subC18 = register("C18", "time", checkC18)
@@ -36,7 +48,10 @@ func abs64(v int64) int64 {
 
 func checkC18(r *run, c *TimeCase) (CaseInfo, error) {
 	var ci CaseInfo
-	t := time.Unix(0, c.T)
+	t := inZone(time.Unix(0, c.T), c.Zone)
+	if c.Zone != 0 || c.RecvZone != 0 {
+		ci.class("non-UTC-location")
+	}
 	// 1. capture time round trip
 	ext := rtp.NewAbsCaptureTimeExtension(t)
 	if want := ntp.NTP64Floor(c.T); ext.Timestamp != want && ext.Timestamp != want+1 {
@@ -88,7 +103,7 @@ func checkC18(r *run, c *TimeCase) (CaseInfo, error) {
 		return ci, failf("offset constructor: capture time %d vs %d", eo.CaptureTime().UnixNano(), c.T)
 	}
 	// 3. send-time estimation across 64 s wraps
-	recv := time.Unix(0, c.T+c.D)
+	recv := inZone(time.Unix(0, c.T+c.D), c.RecvZone)
 	full := rtp.NewAbsSendTimeExtension(t)
 	if want := ntp.Abs24Floor(c.T); uint32(full.Timestamp&0xFFFFFF) != want {
 		return ci, failf("NewAbsSendTimeExtension(%d ns) low 24 bits %#x, 6.18 value of the instant is %#x", c.T, full.Timestamp&0xFFFFFF, want)
@@ -184,11 +199,22 @@ func genTimeCase(t *rapid.T) *TimeCase {
 	default:
 		c.O = rapid.Int64Range(-maxOff, maxOff).Draw(t, "o")
 	}
+	zone := func(label string) int {
+		switch rapid.IntRange(0, 3).Draw(t, label+"mode") {
+		case 0:
+			return rapid.SampledFrom([]int{3600, -3600, 7200, -28800, 19800, 20700, 50400, -43200, 1172, -1, 1}).Draw(t, label)
+		case 1:
+			return rapid.IntRange(-50400, 50400).Draw(t, label)
+		default:
+			return 0
+		}
+	}
+	c.Zone, c.RecvZone = zone("zone"), zone("recvzone")
 
 	return c
 }
 
-const ruleC18 = "rapid draws (instant, delay, offset): instants in [1970, NTP era end 2036) uniformly, within +-5 ms (and at +-{0,1,2,3814,3815,3816} ns) of 64 s wrap points of the 24-bit field, at whole seconds +-2 ns, at the era edges; delays in [0, 64 s - 3815 ns] incl. 0, max and values that carry the receive time just across a wrap; offsets in (-2^31 s, 2^31 s) incl. 0, +-1 ns, +-(2^31 s - 1 ns), whole seconds. Oracle (integer/big.Int arithmetic only): |CaptureTime(New(t)) - t| <= 1 ns, offset recovered within 1 ns with its sign, -1 ns <= t - Estimate(t+d) <= 3816 ns for the 24-bit wire value and the unmasked constructor value, NTP/6.18 encodings equal the exact big.Int reference. Non-trivial = receive time in another 64 s window than the send time, or non-zero offset; distinct = FNV-64 of the JSON case"
+const ruleC18 = "rapid draws (instant, delay, offset): instants in [1970, NTP era end 2036) uniformly, within +-5 ms (and at +-{0,1,2,3814,3815,3816} ns) of 64 s wrap points of the 24-bit field, at whole seconds +-2 ns, at the era edges; delays in [0, 64 s - 3815 ns] incl. 0, max and values that carry the receive time just across a wrap; offsets in (-2^31 s, 2^31 s) incl. 0, +-1 ns, +-(2^31 s - 1 ns), whole seconds; the time.Time values carry the default location or (half of the cases) a fixed-offset zone between -14 h and +14 h, independently for the send and the receive instant. Oracle (integer/big.Int arithmetic only): |CaptureTime(New(t)) - t| <= 1 ns, offset recovered within 1 ns with its sign, -1 ns <= t - Estimate(t+d) <= 3816 ns for the 24-bit wire value and the unmasked constructor value, NTP/6.18 encodings equal the exact big.Int reference. Non-trivial = receive time in another 64 s window than the send time, or non-zero offset; distinct = FNV-64 of the JSON case"
 
 func TestC18(t *testing.T) {
 	r := begin(t, "C18", "exploration", ruleC18)
